@@ -1,6 +1,276 @@
-"""Extra instrumentation engines per property (Miri, ASan, memcheck, ...)."""
+"""Extra instrumentation engines per property: Miri (Stacked / Tree Borrows,
+forced SIMD), ASan, valgrind memcheck, TSan, rustc-verdict corpus (C04 static
+clause), core-only build (C19)."""
+import glob, json, os, shutil, subprocess, time
+from concurrent.futures import ThreadPoolExecutor
 from vdriver import *  # noqa
+import vdriver as vd
+
+MIRI_QUICK = {
+    "C01": ["miri-swar", "miri-avx2"],
+    "C04": ["miri-swar"],
+    "C12": ["miri-avx2", "miri-sse42"],
+    "C16": ["miri-swar"],
+    "C17": ["miri-swar"],
+    "C18": ["miri-swar"],
+}
+MIRI_THOROUGH = {
+    "C01": ["miri-swar", "miri-avx2", "miri-sse42", "miri-tb", "miri-avx2-tb"],
+    "C04": ["miri-swar", "miri-tb", "miri-avx2"],
+    "C12": ["miri-avx2", "miri-sse42", "miri-swar"],
+    "C16": ["miri-swar", "miri-tb"],
+    "C17": ["miri-swar", "miri-tb"],
+    "C18": ["miri-swar", "miri-tb"],
+    "C02": ["miri-swar"],
+    "C05": ["miri-avx2"],
+}
+NATIVE_TOOLS_THOROUGH = {
+    "C01": [("asan", "small"), ("memcheck", "small")],
+    "C04": [("asan", "small")],
+    "C12": [("asan", "small"), ("memcheck", "tiny")],
+    "C17": [("memcheck", "small"), ("asan", "small")],
+    "C18": [("asan", "small")],
+}
+
+
+def miri_label(v):
+    return {"miri-swar": "Miri (Stacked Borrows), scalar/SWAR build", "miri-avx2": "Miri, AVX2 backend forced at compile time",
+            "miri-sse42": "Miri, SSE4.2 backend forced at compile time", "miri-tb": "Miri (Tree Borrows), scalar/SWAR build",
+            "miri-avx2-tb": "Miri (Tree Borrows), AVX2 forced", "miri-rt": "Miri, runtime-dispatch module"}.get(v, v)
 
 
 def extra(ver):
-    pass
+    prop, tier = ver.prop, ver.tier
+    miri = (MIRI_QUICK if tier == "quick" else MIRI_THOROUGH).get(prop, [])
+    seeds = 1 if tier == "quick" else 3
+    for v in miri:
+        for s in range(seeds):
+            res = run_shards(v, prop, "tiny", ver.seed + s * 7919, NCPU, timeout=1500 if tier == "quick" else 6000)
+            ver.add_run(miri_label(v) + (" (seed+%d)" % (s * 7919) if s else ""), v, "tiny", res)
+    if tier == "thorough":
+        for (v, wt) in NATIVE_TOOLS_THOROUGH.get(prop, []):
+            canary_tool(ver, v)
+            res = run_shards(v, prop, wt, ver.seed, NCPU, timeout=7200)
+            ver.add_run({"asan": "AddressSanitizer (exact-size heap buffers)", "memcheck": "valgrind memcheck (exact-size heap buffers, undefined-value tracking)"}[v], v, wt, res)
+    if prop == "C04":
+        lifetimes_corpus(ver)
+    if prop == "C19":
+        core_only_build(ver)
+        c19_coldstart(ver)
+    if prop == "C13" and tier == "thorough":
+        c13_race_detectors(ver)
+
+
+def canary_tool(ver, vname):
+    """The tool must report a deliberate heap out-of-bounds read."""
+    cmd, env = worker_cmd(vname, ["canary", "heap_oob"])
+    r = subprocess.run(cmd, env=env, stdout=subprocess.PIPE, stderr=subprocess.STDOUT, text=True, errors="replace")
+    fired = r.returncode != 0 and "canary survived" not in r.stdout
+    ver.extra.setdefault("canaries", {})["tool_" + vname] = "reported" if fired else "SILENT rc=%d" % r.returncode
+    if not fired:
+        ver.inconclusive.append("%s did not report the deliberate out-of-bounds read" % vname)
+
+
+# ---------------------------------------------------------------- C04 static clause
+
+BORROW_CODES = {"E0499", "E0502", "E0503", "E0505", "E0506", "E0515", "E0597", "E0713", "E0716", "E0521", "E0382", "E0507", "E0308", "E0623", "E0495", "E0106", "E0621", "E0700", "E0310", "E0311", "E0596"}
+# E0308/E0621/E0623/E0495/E0700/E0310/E0311: lifetime mismatch diagnostics ("lifetime may not live long enough" has no code)
+
+
+def lifetimes_corpus(ver):
+    d = build("rel")
+    deps = os.path.join(d, "deps")
+    rlibs = sorted(glob.glob(os.path.join(deps, "libhttparse-*.rlib")), key=os.path.getmtime)
+    if not rlibs:
+        ver.inconclusive.append("C04 static clause: httparse rlib not found")
+        return
+    rlib = rlibs[-1]
+    root = os.path.join(vd.VERIF, "lifetimes")
+    out = os.path.join(vd.TARGET_ROOT, "out", "lt")
+    os.makedirs(out, exist_ok=True)
+    files = sorted(glob.glob(os.path.join(root, "fail", "*.rs"))) + sorted(glob.glob(os.path.join(root, "pass", "*.rs")))
+
+    def one(f):
+        cmd = ["rustc", "--edition", "2021", "--crate-type", "lib", "--error-format=json", "--emit=metadata", "--cfg", "httparse_verif",
+               "-L", "dependency=" + deps, "--extern", "httparse=" + rlib, "-o", os.path.join(out, os.path.basename(f) + ".rmeta"), f]
+        r = subprocess.run(cmd, stdout=subprocess.PIPE, stderr=subprocess.PIPE, text=True)
+        codes, msgs = [], []
+        for line in r.stderr.splitlines():
+            try:
+                j = json.loads(line)
+            except Exception:
+                continue
+            if j.get("level") == "error":
+                c = (j.get("code") or {}).get("code")
+                codes.append(c)
+                msgs.append(j.get("message", "")[:120])
+        return f, r.returncode, codes, msgs
+
+    with ThreadPoolExecutor(max_workers=NCPU) as ex:
+        res = list(ex.map(one, files))
+    shutil.rmtree(out, ignore_errors=True)
+    nfail = npass = 0
+    samples = []
+    for f, rc, codes, msgs in res:
+        name = os.path.relpath(f, root)
+        expect_fail = name.startswith("fail")
+        borrow = [c for c in codes if c in BORROW_CODES] + [m for m in msgs if "lifetime may not live long enough" in m or "borrowed data escapes" in m]
+        if expect_fail:
+            nfail += 1
+            if rc == 0:
+                ver.violations.append(dict(property="C04", rule="escaping_program_accepted_by_rustc", variant="rel", signature=None,
+                                           detail="client program %s, which lets a parsed field outlive / alias-mutate its buffer or array, compiled without error" % name,
+                                           replay=["rustc", name], replay_cmd=["python3", "driver/lifetime_case.py", name]))
+            elif not borrow:
+                ver.inconclusive.append("lifetimes/%s rejected for a non-borrow reason: %s %s" % (name, codes, msgs[:2]))
+            elif len(samples) < 3:
+                samples.append(dict(program=name, rustc="rejected", codes=[c for c in codes if c][:3]))
+        else:
+            npass += 1
+            if rc != 0:
+                # a usage pattern that must keep compiling is a property violation only if it is a borrow error
+                if borrow:
+                    ver.violations.append(dict(property="C04", rule="legitimate_program_rejected_by_rustc", variant="rel", signature=None,
+                                               detail="client program %s (documented usage pattern) no longer compiles: %s" % (name, msgs[:2]),
+                                               replay=["rustc", name], replay_cmd=["python3", "driver/lifetime_case.py", name]))
+                else:
+                    ver.inconclusive.append("lifetimes/%s does not compile: %s %s" % (name, codes, msgs[:2]))
+    ver.extra["static_clause_rustc_corpus"] = dict(escaping_programs_must_be_rejected=nfail, usage_patterns_must_compile=npass, examples=samples)
+    ver.evaluations += len(res)
+    if nfail < 20 or npass < 5:
+        ver.inconclusive.append("lifetime corpus too small (%d fail / %d pass programs)" % (nfail, npass))
+
+
+# ---------------------------------------------------------------- C19 build clause
+
+NOSTD_CLIENT = '''#![no_std]
+use core::mem::MaybeUninit;
+use httparse::{Header, ParserConfig, Request, Response, EMPTY_HEADER};
+
+pub fn all(buf: &[u8]) -> usize {
+    let mut n = 0usize;
+    let mut h = [EMPTY_HEADER; 4];
+    let mut r = Request::new(&mut h);
+    if let Ok(s) = r.parse(buf) { n += s.is_complete() as usize; }
+    let mut h = [EMPTY_HEADER; 4];
+    let mut r = Request::new(&mut h);
+    let c = ParserConfig::default();
+    if let Ok(s) = c.parse_request(&mut r, buf) { n += s.is_complete() as usize; }
+    let mut u: [MaybeUninit<Header<'_>>; 4] = [MaybeUninit::uninit(); 4];
+    let mut r = Request::new(&mut []);
+    if let Ok(s) = r.parse_with_uninit_headers(buf, &mut u) { n += s.is_complete() as usize; }
+    let mut u: [MaybeUninit<Header<'_>>; 4] = [MaybeUninit::uninit(); 4];
+    let mut r = Request::new(&mut []);
+    if let Ok(s) = c.parse_request_with_uninit_headers(&mut r, buf, &mut u) { n += s.is_complete() as usize; }
+    let mut h = [EMPTY_HEADER; 4];
+    let mut r = Response::new(&mut h);
+    if let Ok(s) = r.parse(buf) { n += s.is_complete() as usize; }
+    let mut h = [EMPTY_HEADER; 4];
+    let mut r = Response::new(&mut h);
+    if let Ok(s) = c.parse_response(&mut r, buf) { n += s.is_complete() as usize; }
+    let mut u: [MaybeUninit<Header<'_>>; 4] = [MaybeUninit::uninit(); 4];
+    let mut r = Response::new(&mut []);
+    if let Ok(s) = c.parse_response_with_uninit_headers(&mut r, buf, &mut u) { n += s.is_complete() as usize; }
+    let mut h = [EMPTY_HEADER; 4];
+    if let Ok(s) = httparse::parse_headers(buf, &mut h) { n += s.is_complete() as usize; }
+    if let Ok(s) = httparse::parse_chunk_size(buf) { n += s.is_complete() as usize; }
+    n
+}
+'''
+
+
+def core_only_build(ver):
+    """httparse with the std feature off, built for a target whose sysroot has core only."""
+    src = os.path.join(vd.TARGET_ROOT, "coreonly-src")
+    td = os.path.join(vd.TARGET_ROOT, "coreonly")
+    shutil.rmtree(src, ignore_errors=True)
+    os.makedirs(os.path.join(src, "src"), exist_ok=True)
+    open(os.path.join(src, "Cargo.toml"), "w").write(
+        '[package]\nname = "nostd_client"\nversion = "0.1.0"\nedition = "2021"\n[dependencies]\nhttparse = { path = "%s", default-features = false }\n[workspace]\n' % vd.REPO)
+    open(os.path.join(src, "src", "lib.rs"), "w").write(NOSTD_CLIENT)
+    results = {}
+    for hooks in (False, True):
+        env = dict(os.environ)
+        env["CARGO_NET_OFFLINE"] = "true"
+        env["RUSTFLAGS"] = "--cfg httparse_verif" if hooks else ""
+        cmd = ["cargo", "+nightly", "build", "--offline", "-Zbuild-std=core", "--target", "x86_64-unknown-none", "--manifest-path",
+               os.path.join(src, "Cargo.toml"), "--target-dir", td + ("-h" if hooks else "")]
+        t0 = time.time()
+        r = subprocess.run(cmd, env=env, stdout=subprocess.PIPE, stderr=subprocess.STDOUT, text=True)
+        results["hooks_on" if hooks else "hooks_off"] = dict(rc=r.returncode, seconds=round(time.time() - t0, 1))
+        if r.returncode != 0:
+            tail = r.stdout[-1500:]
+            if "E0463" in r.stdout or "E0433" in r.stdout or "E0432" in r.stdout or "can't find crate" in r.stdout:
+                if hooks and results.get("hooks_off", {}).get("rc") == 0:
+                    ver.inconclusive.append("core-only build fails only with hooks on:\n" + tail)
+                else:
+                    ver.violations.append(dict(property="C19", rule="no_std_build_needs_std_or_alloc", variant="coreonly", signature=None,
+                                               detail="building httparse (default-features = false) against a core-only sysroot fails: " + tail[-700:],
+                                               replay=["coreonly"], replay_cmd=["python3", "driver/coreonly_case.py"]))
+            else:
+                ver.inconclusive.append("core-only build failed for another reason:\n" + tail)
+    shutil.rmtree(td, ignore_errors=True)
+    shutil.rmtree(td + "-h", ignore_errors=True)
+    ver.extra["core_only_build"] = dict(target="x86_64-unknown-none", build_std="core", results=results,
+                                        client="no_std crate calling all 9 entry points, httparse default-features=false")
+    ver.evaluations += 2
+
+
+def c19_coldstart(ver):
+    """Allocator events in the very first call of a process (runtime CPU detection happens inside it)."""
+    d = build("rel")
+    binp = os.path.join(d, "coldstart")
+    worst = 0
+    n = 40 if ver.tier == "quick" else 400
+    for i in range(n):
+        r = subprocess.run([binp, "1" if i % 2 else "4", str(ver.seed + i)], stdout=subprocess.PIPE, stderr=subprocess.STDOUT, text=True)
+        try:
+            j = json.loads(r.stdout.strip().splitlines()[-1])
+            worst = max(worst, j["first_call_allocs"])
+        except Exception:
+            ver.inconclusive.append("coldstart gave no result")
+            return
+    ver.extra["cold_start_first_call"] = dict(processes=n, max_allocator_events_by_calling_thread=worst)
+    ver.evaluations += n
+    if worst != 0:
+        ver.violations.append(dict(property="C19", rule="heap_allocation_during_first_call", variant="rel", signature=None,
+                                   detail="%d allocator events by the calling thread during the first parse of a fresh process" % worst,
+                                   replay=["coldstart"], replay_cmd=[binp, "1", str(ver.seed)]))
+
+
+# ---------------------------------------------------------------- C13 race detectors (thorough)
+
+def c13_race_detectors(ver):
+    # TSan
+    try:
+        d = build("tsan")
+        binp = os.path.join(d, "coldstart")
+        env = dict(os.environ, TSAN_OPTIONS="halt_on_error=1:exitcode=66")
+        reports = 0
+        runs = 200
+        for i in range(runs):
+            r = subprocess.run([binp, "16", str(ver.seed * 31 + i)], env=env, stdout=subprocess.PIPE, stderr=subprocess.STDOUT, text=True)
+            if r.returncode == 66 or "WARNING: ThreadSanitizer" in r.stdout:
+                reports += 1
+                if reports == 1:
+                    ver.violations.append(dict(property="C13", rule="data_race_reported_by_tsan", variant="tsan", signature=None,
+                                               detail="ThreadSanitizer report in the 16-thread cold start: " + r.stdout[-1200:],
+                                               replay=["tsan-coldstart"], replay_cmd=[binp, "16", str(ver.seed * 31 + i)]))
+        ver.extra["tsan_cold_start"] = dict(processes=runs, reports=reports)
+        ver.evaluations += runs
+    except Inconclusive as e:
+        ver.inconclusive.append("TSan build failed: " + str(e)[-800:])
+    # Miri data-race detector over many schedules
+    v = variant("miri-rt")
+    env = dict(os.environ, RUSTFLAGS=v["rustflags"], MIRIFLAGS=v["miriflags"] + " -Zmiri-many-seeds=0..32", CARGO_NET_OFFLINE="true", VERIF_REPO=vd.REPO)
+    cmd = ["cargo", "+nightly", "miri", "run", "--quiet", "--manifest-path", os.path.join(manifest_dir(), "Cargo.toml"), "--target-dir", target_dir(v),
+           "--bin", "coldstart", "--", "4", str(ver.seed)]
+    r = subprocess.run(cmd, env=env, stdout=subprocess.PIPE, stderr=subprocess.STDOUT, text=True, errors="replace")
+    ub = "Undefined Behavior" in r.stdout or "Data race" in r.stdout
+    ver.extra["miri_cold_start"] = dict(schedules=32, threads=4, reported=ub, rc=r.returncode)
+    if ub:
+        ver.violations.append(dict(property="C13", rule="data_race_reported_by_miri", variant="miri-rt", signature=None,
+                                   detail=r.stdout[-1500:], replay=["miri-coldstart"], replay_cmd=cmd))
+    elif r.returncode != 0:
+        ver.inconclusive.append("miri cold start run failed: " + r.stdout[-800:])
+    ver.evaluations += 32
